@@ -1,5 +1,5 @@
 """C04 — decoding is independent of segmentation and never stalls (DESIGN.md 4/C04)."""
-from ..mir import Callee, last_seg, loc, op_place
+from ..mir import Callee, last_seg, loc, op_int, op_place
 from .common import const_cmp_of_switch, gates_of_value, ok_some_blocks, returns_variant
 from . import c07
 
@@ -68,6 +68,74 @@ def run(ctx):
                    "Ok(None) is answered after bytes were consumed without looking at what is left: data of this or the next frame that is already buffered is not "
                    "decoded until the peer sends more (stall)  [context: " + " <- ".join(last_seg(c) for c in cx[-3:]) + "]")
     ctx.floor("R4a", "need-more (Ok(None)) constructions in stream decoders", 12, n_none)
+
+    # ---------------- R4h ----------------------------------------------------------------------
+    # In a decoder that is a state machine, "need more" must be decided by the state it is in: a length test that leads to a need-more
+    # return *before* the state is examined demands the same amount in every state, and holds back a unit that is complete in a state
+    # that needs less (e.g. a 17-byte sealed payload behind an 18-byte threshold). An emptiness test (threshold <= 1) is harmless.
+    from .common import const_cmp_of_switch
+    n_sm = 0
+    for fn in sorted(reach):
+        b = prog.bodies[fn]
+        if b.root != b.defp:
+            continue
+        state_switches = []
+        for blk in b.rpo():
+            t = b.term(blk)
+            if not t or t["k"] != "switch" or len(t["arms"]) + 1 < 2:
+                continue
+            p = op_place(t["d"])
+            if p is None:
+                continue
+            for d in b.defs().get(p[0], []):
+                if d[0] == "assign" and d[3]["rv"]["k"] == "discr":
+                    pl = d[3]["rv"]["p"]
+                    if pl[0] == 1 and any(e[0] == "field" for e in pl[1]) and any(e[0] == "deref" for e in pl[1]) and not any(e[0] == "downcast" for e in pl[1]):
+                        state_switches.append(blk)
+        if not state_switches:
+            continue
+        rv = returns_variant(b)
+        some = set(ok_some_blocks(b))
+        quiet = [x for x, v in rv.items() if v == "Ok" and x not in some]
+        if not quiet:
+            continue
+        n_sm += 1
+        arm_targets = {tg for sb in state_switches for tg in b.succ(sb)}
+        for blk in b.rpo():
+            t = b.term(blk)
+            if not t or t["k"] != "switch":
+                continue
+            cmp_ = const_cmp_of_switch(b, blk)
+            if not cmp_ or cmp_[0] not in ("Lt", "Le", "Gt", "Ge"):
+                continue
+            op, a, bb_, ft, tt = cmp_
+            sides = []
+            for x in (a, bb_):
+                px = op_place(x)
+                if px is None:
+                    sides.append(("const", op_int(x)))
+                    continue
+                _, cs, _ = b.slice_back([px[0]], stop_call=lambda cc: True)
+                sides.append(("len", None) if any(cc.method in ("remaining", "len") for (_, cc, _) in cs) else ("expr", None))
+            if ("len", None) not in sides:
+                continue
+            # which edge leads to a quiet (need-more) return without passing a state arm?
+            for tgt in (ft, tt):
+                leads = any(q in b.reach_from(tgt, avoid=frozenset(arm_targets)) for q in quiet)
+                other = tt if tgt == ft else ft
+                direct = leads and not any(q in b.reach_from(other, avoid=frozenset(arm_targets)) for q in quiet)
+                if not direct:
+                    continue
+                in_state = any(b.dominates(tg, blk) for tg in arm_targets)
+                if in_state:
+                    continue
+                thr = [k for (kind, k) in sides if kind == "const"]
+                small = bool(thr) and thr[0] is not None and thr[0] <= 1
+                ctx.ob("R4h", fn, "need-more-is-decided-per-state", loc(t["sp"]), small,
+                       "only an emptiness test precedes the state dispatch" if small else
+                       "a length test that answers need-more is made before the decoder looks at its state: it demands the same number of bytes in every state, so a "
+                       "unit that is complete in a state needing fewer bytes (a short sealed payload behind the length-block threshold) is withheld until more arrives (stall)")
+    ctx.floor("R4h", "state-machine decoders with need-more returns", 2, n_sm)
 
     # ---------------- R4f ----------------------------------------------------------------------
     # need-more after bytes were taken from the stream requires recorded progress: otherwise the next call starts over at the wrong offset
